@@ -98,6 +98,7 @@ COVERED.update({
     "include/AIToolbox/Factored/Bandit/Policies/RandomPolicy.hpp::action_": (_SCR, "return buffer, every entry written by sampleAction"),
     "include/AIToolbox/Factored/Bandit/Policies/RandomPolicy.hpp::randomDistributions_": ("stateless-distribution", "uniform_int_distribution objects: parameters only"),
     "include/AIToolbox/Logging.hpp::AILogger": ("logger-hook", "user-installed logging callback; written only by the client, read only to emit log text (AI_LOGGING_ENABLED off in the harness build)"),
+    "include/AIToolbox/Logging.hpp::logBuffer": ("logger-hook", "text buffer of the AI_LOGGER macro: written and read only to format a log line (logging is compiled out unless AI_LOGGING_ENABLED)"),
     _BG + "blp_": (_SCR, "pointer to the caller's list, set at the start of operator() (seeded pbvi/perseus, amdpm scenarios)"),
     _BG + "sop_": (_SCR, "pointer to a local of operator(), set before use"),
     _BG + "up_": (_SCR, "pointer to a local of operator(), set before use"),
@@ -238,19 +239,36 @@ def scan_file(path, rel):
                         k, paren = stack.pop()
                         continue
                     start = i + 1; i += 1; continue
+                np_ = nt
+                prev = None
+                while prev != np_:
+                    prev = np_
+                    np_ = re.sub(r"\([^()]*\)", "()", np_)
+                top_eq = re.search(r"(?<![=!<>+\-*/%&|^])=(?!=)", np_.replace("()", "")) is not None and not re.search(r"\boperator\b", np_)
+                lambda_like = re.search(r"(\)|\])\s*(mutable|noexcept|constexpr|->\s*[\w:<>&*\s]+)*\s*$", np_) is not None
+                where = line_of(start + len(head) - len(head.lstrip()))
                 if re.search(r"\bnamespace\b", nt) and "(" not in nt:
                     kind = "ns"
                 elif re.search(r"\benum\b", nt) and "(" not in nt:
                     kind = "enum"
-                elif re.search(r"\b(class|struct|union)\b", nt) and not nt.rstrip().endswith(")") and "=" not in nt and not re.search(r"\)\s*(const|noexcept|override|final|->|\s)*$", nt):
+                elif re.search(r"\b(class|struct|union)\b", nt) and not nt.rstrip().endswith(")") and not top_eq and not re.search(r"\)\s*(const|noexcept|override|final|->|\s)*$", nt):
                     kind = "class"
-                elif ctx in ("func", "init", "enum"):
-                    kind = ctx if ctx != "enum" else "init"
-                elif ")" in nt or "]" in nt:
+                elif ctx == "enum":
+                    kind = "init"
+                elif ctx == "init":
+                    kind = "func" if lambda_like else "init"
+                elif top_eq:
+                    # `T x = {…}` / `T x = [..](..) {…}`: the declaration is judged now
+                    _judge(found, rel, where, stmt, ctx)
+                    kind = "func" if (lambda_like or ctx == "func") else "init"
+                elif ctx == "func":
+                    if re.search(r"^\s*(static|thread_local)\b", nt) and not lambda_like:
+                        _judge(found, rel, where, stmt, ctx)      # `static T x{…};`
                     kind = "func"
-                elif "=" in nt or re.search(r"[\w>\]]\s*$", nt) and ctx in ("class", "ns") and nt.strip() and not re.search(r"\bextern\b", nt):
-                    # brace initialiser of a variable: the declaration is judged now
-                    _judge(found, rel, line_of(start + len(head) - len(head.lstrip())), stmt, ctx)
+                elif ")" in nt or lambda_like:
+                    kind = "func"
+                elif re.search(r"[\w>\]]\s*$", nt) and ctx in ("class", "ns") and nt.strip() and not re.search(r"\bextern\b", nt):
+                    _judge(found, rel, where, stmt, ctx)          # `T x{…};`
                     kind = "init"
                 else:
                     kind = "ns"
@@ -460,17 +478,21 @@ def g_vi(rng, kind):
 
 
 def g_pomdp(rng):
-    alg = rng.choice(["ip", "wit", "wit", "ls", "ls"])
+    alg = rng.choice(["ip", "wit", "wit", "wit", "ls", "ls"])
     S1, S2 = two_sizes(rng, 2, 3)
-    m1 = gen_pomdp(rng, S1, rng.choice([1, 2]), rng.choice([1, 2, 3]))
-    m2 = gen_pomdp(rng, S2, rng.choice([1, 2]), rng.choice([1, 2]))
-    return "pomdp %s %d %s %s" % (alg, rng.choice([1, 2, 2]), fmt_pomdp(m1), fmt_pomdp(m2))
+    O2 = rng.choice([2, 2, 3]); A2 = rng.choice([2, 2, 3])
+    # scratch keyed by observation vectors (Witness::triedVectors_) can only collide when O agrees
+    O1 = O2 if rng.random() < 0.6 else rng.choice([1, 2, 3])
+    m1 = gen_pomdp(rng, S1, rng.choice([1, 2]), O1, rew=rng.choice(["mixed", "frac", "pos"]))
+    m2 = gen_pomdp(rng, S2, A2, O2, rew=rng.choice(["mixed", "frac", "pos"]))
+    h = rng.choice([2, 2, 3]) if (A2 * O2 <= 6) else 2
+    return "pomdp %s %d %s %s" % (alg, h, fmt_pomdp(m1), fmt_pomdp(m2))
 
 
 def g_sarsop(rng):
     S1, S2 = two_sizes(rng, 2, 3)
-    m1 = gen_pomdp(rng, S1, 2, rng.choice([1, 2]), rew="pos")
-    m2 = gen_pomdp(rng, S2, rng.choice([1, 2]), 2, rew="pos")
+    m1 = gen_pomdp(rng, S1, 2, rng.choice([1, 2]), rew="pos", gammas=(F(1, 2),))
+    m2 = gen_pomdp(rng, S2, rng.choice([1, 2]), 2, rew="pos", gammas=(F(1, 2),))
     b1 = gen_beliefs(rng, S1, 1)[0]; b2 = gen_beliefs(rng, S2, 1)[0]
     return "sarsop %s %s %s %s %s" % (rng.choice(["1/2", "1/8", "1"]), fmt_pomdp(m1), L(Qs(b1).split()), fmt_pomdp(m2), L(Qs(b2).split()))
 
@@ -545,7 +567,7 @@ def gen(rng, tier):
     mult = {"quick": 1, "thorough": 4, "search": 2}[tier]
     out = []
     plan = [(lambda: g_prog(rng), 90), (lambda: g_fg(rng), 90), (lambda: g_amdp(rng), 24), (lambda: g_amdpm(rng), 8),
-            (lambda: g_vi(rng, "vi"), 40), (lambda: g_vi(rng, "pi"), 16), (lambda: g_pomdp(rng), 16),
+            (lambda: g_vi(rng, "vi"), 40), (lambda: g_vi(rng, "pi"), 16), (lambda: g_pomdp(rng), 24),
             (lambda: g_sarsop(rng), 6), (lambda: g_seeded(rng), 12), (lambda: g_ve(rng, "ve"), 30), (lambda: g_ve(rng, "rils"), 16)]
     for f, n in plan:
         for _ in range(n * mult):
